@@ -1017,5 +1017,27 @@ def _pk17(k: str) -> ast.AST:
         return ast.Constant(None)
 
 
+def r17_18(ctx):
+    """R17.18 the menu a row is listed in is found for every nesting depth: MenuConfigState._parent_menu() climbs until the
+    node is a menu (is_menuconfig) or the top - a loop (or recursion), not a single step. With one step a row two implicit
+    submenus deep makes jump_to()/leave_menu() set cur_menu to a plain option: only a part of the real menu is shown."""
+    repo = ctx.repo
+    f = repo.func(f"{MODEL}:MenuConfigState._parent_menu")
+    ctx.analysed(f.qual)
+    construct = "MenuConfigState._parent_menu/climbs over every implicit-submenu parent"
+    loops = [n for n in ast.walk(f.node) if isinstance(n, ast.While) and "is_menuconfig" in ast.unparse(n.test)]
+    loops += [n for n in ast.walk(f.node) if isinstance(n, ast.While) and isinstance(n.test, ast.Constant) and "is_menuconfig" in ast.unparse(n)]
+    rec = [n for n in ast.walk(f.node) if isinstance(n, ast.Call) and ast.unparse(n.func).split(".")[-1] == f.node.name]
+    forl = [n for n in ast.walk(f.node) if isinstance(n, (ast.For, ast.GeneratorExp, ast.ListComp)) and "is_menuconfig" in ast.unparse(n)]
+    mentions = "is_menuconfig" in ast.unparse(f.node)
+    if not mentions:
+        ctx.ok(construct, f.loc(), nontrivial=False, note="no is_menuconfig test here")
+    elif loops or rec or forl:
+        ctx.ok(construct, f.loc((loops or rec or forl)[0]))
+    else:
+        ctx.bad(construct, "the climb over non-menu parents is a single step: for a row nested two implicit submenus deep the result is a plain option, "
+                "which jump_to()/leave_menu() then make the current menu", f.loc())
+
+
 def rules():
-    return [("R17.17", r17_17, 2), ("R17.16", r17_16, 6), ("R17.15", r17_15, 2), ("R17.14", r17_14, 1), ("R17.13", r17_13, 1), ("R17.12", r17_12, 1), ("R17.11", r17_11, 2), ("R17.10", r17_10, 3), ("R17.9", r17_9, 2), ("R17.8", r17_8, 6), ("R17.7", r17_7, 5), ("R17.1", r17_1, 6), ("R17.5", r17_5, 4), ("R17.2", r17_2, 13), ("R17.3", r17_3, 4), ("R17.4", r17_4, 6), ("R17.6", r17_6, 3)]
+    return [("R17.18", r17_18, 1), ("R17.17", r17_17, 2), ("R17.16", r17_16, 6), ("R17.15", r17_15, 2), ("R17.14", r17_14, 1), ("R17.13", r17_13, 1), ("R17.12", r17_12, 1), ("R17.11", r17_11, 2), ("R17.10", r17_10, 3), ("R17.9", r17_9, 2), ("R17.8", r17_8, 6), ("R17.7", r17_7, 5), ("R17.1", r17_1, 6), ("R17.5", r17_5, 4), ("R17.2", r17_2, 13), ("R17.3", r17_3, 4), ("R17.4", r17_4, 6), ("R17.6", r17_6, 3)]
